@@ -69,6 +69,8 @@ def exc_type(name):
     import lazy_dataset
     return {'FilterException': lazy_dataset.FilterException, 'ValueError': ValueError, 'KeyError': KeyError,
             'UserError': UserError, 'UserBaseError': UserBaseError, 'Exception': Exception,
+            'IndexError': IndexError, 'StopIteration': StopIteration, 'AssertionError': AssertionError,
+            'NotImplementedError': NotImplementedError, 'TypeError': TypeError,
             'SubFilter': _sub_filter()}[name]
 
 
@@ -139,6 +141,10 @@ def _plus1000(x):
     return x + 1000
 
 
+def _plus100(x):
+    return x + 100
+
+
 def _neg(x):
     return -x
 
@@ -153,6 +159,7 @@ class Harness:
     def __init__(self, cfg):
         import lazy_dataset
         self.cfg = cfg
+        self.twin = None
         n, w, b = cfg['n'], cfg['w'], cfg['b']
         backend = cfg.get('backend', 't')
         vis = bool(cfg.get('log_visible', False))
@@ -169,6 +176,12 @@ class Harness:
             ds = ds.map(Tap('fn', fail_fn, vis, add=100, payload=cfg.get('payload')))
             for stage in cfg.get('pre', []):
                 ds = self._stage(ds, stage)
+            if cfg.get('twin'):
+                # the plain sequential pipeline with an equally seeded generator, consumed next to the real one
+                tw = base.map(_plus100)
+                for stage in cfg.get('pre', []):
+                    tw = self._stage(tw, stage)
+                self.twin = tw
             kw = {}
             if cfg.get('catch') is not None:
                 c = cfg['catch']
@@ -186,8 +199,15 @@ class Harness:
                 ds = src.cache()
         elif entry == 'parmap':
             ds = base.map(Tap('pull', fail_src, vis))
+            for stage in cfg.get('pre', []):
+                ds = self._stage(ds, stage)
             ds = ds.map(Tap('fn', fail_fn, vis, add=100, payload=cfg.get('payload')), num_workers=w, buffer_size=b,
                         backend=backend)
+            if cfg.get('twin'):
+                tw = base
+                for stage in cfg.get('pre', []):
+                    tw = self._stage(tw, stage)
+                self.twin = tw.map(_plus100)
         else:
             raise ValueError(entry)
         for stage in cfg.get('post', []):
@@ -201,6 +221,9 @@ class Harness:
 
     @staticmethod
     def _stage(ds, stage):
+        if stage == 'reshuffle':
+            import numpy as np
+            return ds.shuffle(True, rng=np.random.RandomState(7))
         if stage == 'tile2':
             return ds.tile(2)
         if stage == 'cache':
@@ -275,6 +298,8 @@ class Harness:
             self.rounds.append(rec)
             s.emit('round', rnd)
             try:
+                if self.twin is not None:
+                    rec['expected'] = [_val(x) for x in (self.twin.items() if cfg.get('mode') == 'items' else self.twin)]
                 it = iter(self.ds.items()) if cfg.get('mode') == 'items' else iter(self.ds)
                 if consumer[0] == 'exhaust':
                     for x in it:
